@@ -44,8 +44,21 @@ type Conf struct {
 
 func (c *Conf) Negotiated() int { return min(c.ClientRev, c.ServerRev) }
 
-// Method is the frame method byte the reference server uses for this client.
+// Method is the frame method byte that corresponds to the client's compression setting.
 func (c *Conf) Method() byte {
+	switch c.Comp {
+	case ch.CompressionLZ4, ch.CompressionLZ4HC:
+		return refproto.MethodLZ4
+	case ch.CompressionZSTD:
+		return refproto.MethodZSTD
+	case ch.CompressionNone:
+		return refproto.MethodNone
+	}
+	return 0
+}
+
+// ServerMethod is the method of the next frame the reference server writes.
+func (c *Conf) ServerMethod() byte {
 	if c.MixMethods > 0 && c.Comp != ch.CompressionDisabled {
 		// a server is free to choose the method frame by frame (an incompressible
 		// block goes out as None, say): every n-th frame uses another method
@@ -248,11 +261,11 @@ func (p *SPacket) Encode(cf *Conf) []byte {
 	var err error
 	switch p.Kind {
 	case "data":
-		err = refproto.EncodeBlockPacket(&w, refproto.CodeData, p.Block, rev, cf.Method())
+		err = refproto.EncodeBlockPacket(&w, refproto.CodeData, p.Block, rev, cf.ServerMethod())
 	case "totals":
-		err = refproto.EncodeBlockPacket(&w, refproto.CodeTotals, p.Block, rev, cf.Method())
+		err = refproto.EncodeBlockPacket(&w, refproto.CodeTotals, p.Block, rev, cf.ServerMethod())
 	case "extremes":
-		err = refproto.EncodeBlockPacket(&w, refproto.CodeExtremes, p.Block, rev, cf.Method())
+		err = refproto.EncodeBlockPacket(&w, refproto.CodeExtremes, p.Block, rev, cf.ServerMethod())
 	case "progress":
 		refproto.EncodeProgress(&w, p.Prog, rev)
 	case "profile":
